@@ -533,17 +533,23 @@ def RQR.roundTrip (t : RQRTags) (m : RQR) : RQR :=
 
 inductive MsgKind
   | fieldList | unflatRow | flatRow | endOfResults
+  | failed            -- a message that reports the follower's error (`Error != ""`)
   | partitionDone     -- queryCluster's "final results for partition": no fields, no key, no flat row
   deriving DecidableEq, Repr, Inhabited
 
 /-- The kind the LEADER infers from a received message: `HandleRemoteQueries` hands the first
-    message to `onFields`, later ones — unless `EndOfResults` — to `onRow(m.Key, m.Vals)` or
-    `onFlatRow(m.Row)` depending on the query; `queryCluster` then looks at
-    `fields != nil`, `key != nil`, `flatRow != nil` in that order and otherwise counts the
-    partition as finished. -/
-def leaderKind (first unflat : Bool) (m : RQR) : MsgKind :=
+    message to `onFields`; of a later one it reads `Error` (non-empty: the partition has
+    failed, whatever else the message carries) and `EndOfResults` — in the order the source
+    has them (`errBeforeEnd`, regenerated: with `EndOfResults` tested first and leaving the
+    loop, the error text of a FINAL message is never looked at) — and otherwise passes it to
+    `onRow(m.Key, m.Vals)` or `onFlatRow(m.Row)` depending on the query; `queryCluster` then
+    looks at `fields != nil`, `key != nil`, `flatRow != nil` in that order and otherwise
+    counts the partition as finished. -/
+def leaderKind (errBeforeEnd first unflat : Bool) (m : RQR) : MsgKind :=
   if first then (if m.fields.isSome then .fieldList else .partitionDone)
+  else if errBeforeEnd && m.error != "" then .failed
   else if m.endOfResults then .endOfResults
+  else if m.error != "" then .failed
   else if unflat then (if m.key.isSome then .unflatRow else .partitionDone)
   else (if m.row.isSome then .flatRow else .partitionDone)
 
@@ -561,11 +567,13 @@ def Sent.msg : Sent → RQR
   | .flatRow r => { row := some r }
   | .endOfResults st e => { stats := st, error := e, endOfResults := true }
 
+/-- `ProcessRemoteQuery` reports a failed query ON the final message: `Error` together with
+    `EndOfResults = true`. -/
 def Sent.kind : Sent → MsgKind
   | .fieldList _ => .fieldList
   | .unflatRow _ _ => .unflatRow
   | .flatRow _ => .flatRow
-  | .endOfResults _ _ => .endOfResults
+  | .endOfResults _ e => if e != "" then .failed else .endOfResults
 
 /-- position and query flavour under which the follower sends the message -/
 def Sent.first : Sent → Bool
@@ -573,8 +581,7 @@ def Sent.first : Sent → Bool
   | _ => false
 
 /-- the fields of RemoteQueryResult the receiving code tests, with the way they are tested:
-    `EndOfResults`, `Fields`, `Key`, `Row` decide `leaderKind`; `Error != ""` only sets the
-    error the leader finally reports.  Tied to the source by `C20.kind_tests_match_model`. -/
+    `EndOfResults`, `Error`, `Fields`, `Key`, `Row` decide `leaderKind`.  Tied to the source by `C20.kind_tests_match_model`. -/
 def rqrKindFields : List (String × String) :=
   [("EndOfResults", "bool"), ("Error", "zero"), ("Fields", "nil"), ("Key", "nil"), ("Row", "nil")]
 
